@@ -465,8 +465,16 @@ def _simple_helper_classes(tree: ast.Module) -> Dict[str, ast.ClassDef]:
                     if isinstance(x, ast.Name):
                         subclassed.add(x.id)
     for st in tree.body:
-        if not isinstance(st, ast.ClassDef) or not st.name.startswith('_') or st.decorator_list or st.keywords:
+        if not isinstance(st, ast.ClassDef) or not st.name.startswith('_') or st.keywords:
             continue
+        is_dc = False
+        if st.decorator_list:
+            d0 = st.decorator_list[0]
+            dn = ast.unparse(d0.func if isinstance(d0, ast.Call) else d0).split('.')[-1]
+            if len(st.decorator_list) == 1 and dn == 'dataclass':
+                is_dc = True
+            else:
+                continue
         if any(not (ast.unparse(b).split('[')[0].split('.')[-1] in ('Generic', 'object')) for b in st.bases):
             continue
         if st.name in subclassed:
@@ -479,6 +487,8 @@ def _simple_helper_classes(tree: ast.Module) -> Dict[str, ast.ClassDef]:
                 continue
             if isinstance(b, ast.AnnAssign) and b.value is None:
                 continue
+            if is_dc and isinstance(b, ast.AnnAssign) and isinstance(b.target, ast.Name):
+                continue      # a dataclass field with a default / field(default_factory=...)
             if isinstance(b, ast.Pass):
                 continue
             if isinstance(b, _FN) and not b.decorator_list:
@@ -498,6 +508,10 @@ def _simple_helper_classes(tree: ast.Module) -> Dict[str, ast.ClassDef]:
                 continue
             ok = False
         init = next((b for b in st.body if isinstance(b, _FN) and b.name == '__init__'), None)
+        if is_dc and (init is not None or any(isinstance(b, _FN) and b.name == '__post_init__' for b in st.body)):
+            ok = False
+        if is_dc:
+            st._is_dataclass = True  # type: ignore[attr-defined]
         if init is not None:
             if isinstance(init, ast.AsyncFunctionDef):
                 ok = False
@@ -552,6 +566,38 @@ def deobjectify(tree: ast.Module) -> int:
             init = next((b for b in cls.body if isinstance(b, _FN) and b.name == '__init__'), None)
             methods = {b.name: b for b in cls.body if isinstance(b, _FN) and b.name != '__init__'}
             init_assigns: List[Tuple[str, ast.expr]] = []
+            dc_fields: List[Tuple[str, Optional[ast.expr]]] = []
+            if getattr(cls, '_is_dataclass', False):
+                for b in cls.body:
+                    if isinstance(b, ast.AnnAssign) and isinstance(b.target, ast.Name) and 'ClassVar' not in ast.unparse(b.annotation):
+                        dflt: Optional[ast.expr] = None
+                        v_ = b.value
+                        if isinstance(v_, ast.Call) and ast.unparse(v_.func).split('.')[-1] == 'field':
+                            kw_ = {k.arg: k.value for k in v_.keywords}
+                            if 'default_factory' in kw_:
+                                dflt = ast.copy_location(ast.Call(func=kw_['default_factory'], args=[], keywords=[]), v_)
+                            elif 'default' in kw_:
+                                dflt = kw_['default']
+                        elif v_ is not None:
+                            dflt = v_
+                        dc_fields.append((b.target.id, dflt))
+                # bind constructor arguments by position / keyword, defaults otherwise
+                names_ = [f for f, _ in dc_fields]
+                given: Dict[str, ast.expr] = dict(zip(names_, val.args))
+                dc_ok = len(val.args) <= len(names_)
+                for k in val.keywords:
+                    if k.arg not in names_ or k.arg in given:
+                        dc_ok = False
+                    given[k.arg] = k.value
+                for f_, d_ in dc_fields:
+                    if f_ in given:
+                        init_assigns.append((f_, given[f_]))
+                    elif d_ is not None:
+                        init_assigns.append((f_, d_))
+                    else:
+                        dc_ok = False
+                if not dc_ok:
+                    continue
             if init is not None:
                 for b in init.body:
                     if isinstance(b, ast.Assign):
@@ -584,11 +630,11 @@ def deobjectify(tree: ast.Module) -> int:
                 continue
             # constructor arguments
             ipar = [a.arg for a in init.args.args][1:] if init is not None else []
-            if len(val.args) > len(ipar):
+            if len(val.args) > len(ipar) and not getattr(cls, '_is_dataclass', False):
                 continue
             ibind: Dict[str, ast.expr] = dict(zip(ipar, val.args))
             bad = False
-            for k in val.keywords:
+            for k in ([] if getattr(cls, '_is_dataclass', False) else val.keywords):
                 if k.arg not in ipar or k.arg in ibind:
                     bad = True
                 ibind[k.arg] = k.value
@@ -711,6 +757,18 @@ def forward_substitute(tree: ast.Module) -> int:
     dropped.  Evaluation order and values are unchanged; rules see `await f(...)` whether or not the coroutine, the
     task or the condition was given a name first."""
     total = 0
+    defined = {n.name for n in ast.walk(tree) if isinstance(n, _FN)}
+
+    def helper_call(v: ast.AST) -> bool:
+        """a call of a function / private method of this module: the graph builder may expand it in place and hand
+        each of its returned values to the assignment target - which needs the target"""
+        c = v.value if isinstance(v, ast.Await) else v
+        if not isinstance(c, ast.Call):
+            return False
+        f = c.func
+        if isinstance(f, ast.Name):
+            return f.id in defined
+        return isinstance(f, ast.Attribute) and isinstance(f.value, ast.Name) and f.value.id in ('self', 'cls') and f.attr in defined
     for fn in [n for n in ast.walk(tree) if isinstance(n, _FN)]:
         changed = True
         rounds = 0
@@ -742,7 +800,7 @@ def forward_substitute(tree: ast.Module) -> int:
                             name, val = st.target.id, st.value
                         else:
                             continue
-                        if name in declared or name in params or isinstance(val, (ast.Yield, ast.YieldFrom)):
+                        if name in declared or name in params or isinstance(val, (ast.Yield, ast.YieldFrom)) or helper_call(val):
                             continue
                         if any(isinstance(x, (ast.Yield, ast.YieldFrom, ast.NamedExpr)) for x in ast.walk(val)):
                             continue
@@ -774,6 +832,11 @@ def forward_substitute(tree: ast.Module) -> int:
                                 guarded = True
                             ch_, p_ = p_, getattr(p_, '_alias_parent', None)
                         if guarded:
+                            continue
+                        # a name used as the receiver of an attribute access or as the callee is a handle on an object
+                        # (a pool, a future, a batcher), not an explaining variable: keep it
+                        p0 = getattr(uses[0], '_alias_parent', None)
+                        if (isinstance(p0, ast.Attribute) and p0.value is uses[0]) or (isinstance(p0, ast.Call) and p0.func is uses[0]):
                             continue
                         pairs.setdefault(name, []).append((body, i, val, uses[0]))
             for name, ps in pairs.items():
@@ -818,3 +881,69 @@ def forward_substitute(tree: ast.Module) -> int:
                     set_alias_parents(fn)
                     break      # indices moved: recompute
     return total
+
+
+def inline_exception_tuples(tree: ast.Module) -> int:
+    """`_STOP = (TimeoutError, CancelledError)` at module level and `except _STOP:` -> `except (TimeoutError, CancelledError):`
+    (the constant must be assigned exactly once, to a tuple of plain class references)."""
+    consts: Dict[str, ast.Tuple] = {}
+    counts: Dict[str, int] = {}
+    for n in ast.walk(tree):
+        if isinstance(n, ast.Name) and isinstance(n.ctx, (ast.Store, ast.Del)):
+            counts[n.id] = counts.get(n.id, 0) + 1
+    for st in tree.body:
+        tgt = val = None
+        if isinstance(st, ast.Assign) and len(st.targets) == 1 and isinstance(st.targets[0], ast.Name):
+            tgt, val = st.targets[0].id, st.value
+        elif isinstance(st, ast.AnnAssign) and isinstance(st.target, ast.Name) and st.value is not None:
+            tgt, val = st.target.id, st.value
+        if tgt and isinstance(val, ast.Tuple) and val.elts and counts.get(tgt, 0) == 1 \
+                and all(isinstance(e, (ast.Name, ast.Attribute)) for e in val.elts):
+            consts[tgt] = val
+    n_ = 0
+    if not consts:
+        return 0
+    for h in ast.walk(tree):
+        if isinstance(h, ast.ExceptHandler) and isinstance(h.type, ast.Name) and h.type.id in consts:
+            new = _clone_expr(consts[h.type.id])
+            for y in ast.walk(new):
+                ast.copy_location(y, h.type)
+            h.type = new
+            n_ += 1
+    return n_
+
+
+def inline_module_partials(tree: ast.Module) -> int:
+    """`_consume = partial(deque, maxlen=0)` at module level (assigned once): a call `_consume(x)` is `deque(x, maxlen=0)`."""
+    counts: Dict[str, int] = {}
+    for n in ast.walk(tree):
+        if isinstance(n, ast.Name) and isinstance(n.ctx, (ast.Store, ast.Del)):
+            counts[n.id] = counts.get(n.id, 0) + 1
+        elif isinstance(n, _FN + (ast.ClassDef,)):
+            counts[n.name] = counts.get(n.name, 0) + 1
+    parts: Dict[str, ast.Call] = {}
+    for st in tree.body:
+        tgt = val = None
+        if isinstance(st, ast.Assign) and len(st.targets) == 1 and isinstance(st.targets[0], ast.Name):
+            tgt, val = st.targets[0].id, st.value
+        elif isinstance(st, ast.AnnAssign) and isinstance(st.target, ast.Name) and st.value is not None:
+            tgt, val = st.target.id, st.value
+        if tgt and counts.get(tgt, 0) == 1 and isinstance(val, ast.Call) and ast.unparse(val.func).split('.')[-1] == 'partial' \
+                and val.args and isinstance(val.args[0], (ast.Name, ast.Attribute)) \
+                and not any(isinstance(a, ast.Starred) for a in val.args) and not any(k.arg is None for k in val.keywords):
+            parts[tgt] = val
+    if not parts:
+        return 0
+    n_ = 0
+    for c in ast.walk(tree):
+        if isinstance(c, ast.Call) and isinstance(c.func, ast.Name) and c.func.id in parts:
+            pv = parts[c.func.id]
+            given = {k.arg for k in c.keywords}
+            c.func = _clone_expr(pv.args[0])
+            c.args = [_clone_expr(a) for a in pv.args[1:]] + list(c.args)
+            c.keywords = [ast.keyword(arg=k.arg, value=_clone_expr(k.value)) for k in pv.keywords if k.arg not in given] + list(c.keywords)
+            for y in ast.walk(c):
+                if not hasattr(y, 'lineno'):
+                    ast.copy_location(y, c)
+            n_ += 1
+    return n_
